@@ -563,7 +563,7 @@ func c07C(c *core.Case) {
 		err    error
 	}
 	resCh := make(chan impRes, 1)
-	holdStep := "db write"
+	holdStep := "journal header"
 	if wal {
 		holdStep = "wal frame 0"
 	}
